@@ -17,6 +17,22 @@ Tie to the code on every run:
                     page header/footer), conversion on / off / component default; the file *bytes* are read back
                     with harness/rtfread.py and every sentinel-tagged text compared with the original; plus a
                     byte-level scan of every `\\uN` / `\\ucN` in the file.
+  constructor tie   (harness/props/c10_sweep.py) the text-bearing constructors (`RTFTitle`, …, `RTFFootnote`,
+                    `RTFSource`; text as `str` and as list of lines) against `Model.TextInput` — the step between the
+                    user's text and the text that reaches the escaper (`_process_text_conversion` joins footnote / source
+                    lines with `\\line `); theorems `Props/C10in.lean`.
+  document sweep    (harness/props/c10_sweep.py) EVERY character of the risky classes — characters special to a Python
+                    string method (str.splitlines boundaries, the isspace / strip set, isdecimal / isdigit / isnumeric,
+                    case-mapping expanders and odd case pairs, titlecase letters, NFC / NFD / NFKC-unstable characters,
+                    combining marks), noncharacters and surrogate neighbours, BOM, bidi controls, soft hyphen and all
+                    other format characters, variation selectors, cp1252's 0x80–0x9F characters, all ASCII, UTF-8 /
+                    UTF-16 boundaries, private use / unassigned — plus a seeded sample of everything else, in EVERY
+                    position kind (title, subline, page header, page footer as `str` and as list; footnote and source as
+                    table and as paragraph, as `str` and as list; column header explicit / top level / from column names;
+                    cell; page_by heading as spanning row and as first row; subline_by heading), as the WHOLE text and at
+                    the START, MIDDLE and END of a text, conversion on / off / default.  The written file is read back
+                    and must show, for every position, exactly the text given (items of a list separated by a line
+                    break, nothing else); nothing lost, changed or invented.
 """
 from __future__ import annotations
 
@@ -30,11 +46,22 @@ import tempfile
 
 from .. import common, docgen, rtfread
 from ..common import sub_rng
+from . import c10_sweep
 
 RULE = ("unit: single scalar values (all boundaries 7F/80, 9F/A0, B1, FF/100, 7FF/800, 7FFF/8000, D7FF/E000, "
         "FFFF/10000, 10FFFF; quick = whole BMP + 2 000 per astral plane, thorough = every scalar value) and random strings mixing ASCII, Latin-1, 2-byte, "
         "BMP below/above U+8000 and astral characters, with text conversion on (no conversion-triggering "
-        "sequences) and off; docs: the string in every text-bearing position; non-trivial = contains at least one "
+        "sequences) and off; docs: the string in every text-bearing position; constructors: every swept scalar value as a "
+        "one-character item of a list, every risky character as a one-character str and at the start / middle / end of "
+        "a str and of list items, for RTFTitle/Subline/PageHeader/PageFooter/ColumnHeader/Footnote/Source; document "
+        "sweep: every character of the risky classes (characters special to str.splitlines / isspace / isdecimal / "
+        "isdigit / isnumeric / upper / lower / casefold / title, NFC-, NFD-, NFKC-unstable, combining, noncharacters, "
+        "surrogate neighbours, BOM, bidi and other format controls, soft hyphen, variation selectors, cp1252 0x80-0x9F "
+        "characters, all ASCII, encoding boundaries, private use / unassigned; big classes: fixed representatives + "
+        "seeded sample) and a seeded sample of all other code points, in every position kind (title, subline, page "
+        "header, page footer: str and list; footnote, source: table and paragraph, str and list; column header "
+        "explicit / top / from names; cell; page_by heading spanning / first row; subline_by heading) as the whole text "
+        "and at the start, middle and end of a text, conversion on / off / default; non-trivial = contains at least one "
         "non-ASCII character; distinct by (level, conversion flag, text)")
 TRUSTED = [
     "Lean 4.33 kernel; axioms ⊆ {propext, Classical.choice, Quot.sound} (audited per theorem on every run)",
@@ -42,6 +69,7 @@ TRUSTED = [
     "Model.Escape.decode is *our* reading of RTF 1.9 for text runs (7-bit text, \\'hh and raw high bytes in cp1252, "
     "\\uN signed 16-bit with \\ucN fallback skipping, surrogate pairs) — the specification the theorems are relative to",
     "harness/rtfread.py (Python RTF reader, same rules) for whole documents",
+    "the Unicode database of the running CPython (unicodedata / str methods) for the definition of the risky classes",
 ]
 MANIFEST = dict(
     text="Lean theorems over the model of the per-character escaper that ends TextContent._convert_special_chars, "
@@ -53,12 +81,26 @@ MANIFEST = dict(
          "stratified astral planes in quick) and random strings, conversion on and off, the Lean reader judging the implementation's bytes; and "
          "files written by write_rtf with the string in every text-bearing position read back by an RTF reader. "
          "_escape_non_ascii is also translated from its Python source on every run and proved equal to the model's "
-         "escape for every string (Props/C10py.lean).",
+         "escape for every string (Props/C10py.lean). The step BEFORE the escaper — what the constructors do with the "
+         "text argument (a str is one line; footnote / source lines are joined by '\\line ') — is modelled "
+         "(Model/TextInput.lean), proved to keep every character (Props/C10in.lean: the bytes of a footnote / source are "
+         "the bytes of its lines separated by \\line and nothing else; the reader shows the lines' characters in order) "
+         "and tied to the real constructors on every run; a document-level sweep puts every character that is special "
+         "to a Python string method (line boundaries, whitespace, digit classes, case mapping, normalisation), every "
+         "noncharacter / format control / variation selector and a seeded sample of the rest into every position kind, "
+         "as whole text and at the start / middle / end, and reads the written file back position by position.",
     note="The reader (Model.Escape.decode / harness/rtfread.py: cp1252 for bytes >= 0x80, \\uN + \\uc skipping, "
          "surrogate pairs) is the specification. With conversion on, generated strings avoid conversion-triggering "
          "sequences (^ _ >= <= and backslash commands; those are C11's). That every document position calls the "
-         "escaper is observed on real files, not proved (no Lean model of the whole layout here); the subline_by "
-         "heading, which has its own code path, is modelled and proved.",
+         "escaper is proved for the encoder model (Props/C10enc.lean) and observed on real files; the subline_by "
+         "heading, which has its own code path, is modelled and proved. The chain for 'the text that reaches the escaper "
+         "is the user's text': constructors vs Model.TextInput (unit tie, c10_sweep.py) -> post-construction state -> "
+         "rtf_encode bytes (whole-encoder correspondence of C01, which serialises the state AFTER construction) -> text "
+         "holes (C10enc) -> reader (C10, C10in); the document sweep observes the whole chain end to end. Big risky "
+         "classes (decimal digits, numerics, NFD/NFKC-unstable, combining marks) are swept by fixed representatives plus "
+         "a seeded sample in the quick tier. A frame column NAMED '*' is swept as header-from-name only in documents "
+         "without page_by/subline_by: polars reads that name as a wildcard in select(), which rtflite uses there "
+         "(reported as an rtflite defect outside this property).",
     technique="Lean 4 proof (case split on code-point ranges + fold over the reader's state machine, induction on the "
               "string) + exhaustive/differential correspondence model/implementation + read-back of real files",
     design="7/C10",
@@ -70,6 +112,7 @@ ASSUME = [
 ]
 
 CORPUS_DIR = common.CORPUS / "C10"
+CORPUS_SWEEP: list = []
 
 # ------------------------------------------------------------------ alphabets
 
@@ -648,6 +691,8 @@ def run_docs(res, rng, tier, corpus=()):
 
 def load_corpus():
     unit, sub, docs = [], [], []
+    global CORPUS_SWEEP
+    CORPUS_SWEEP = []
     if CORPUS_DIR.is_dir():
         for f in sorted(CORPUS_DIR.glob("*.json")):
             c = json.loads(f.read_text(encoding="utf-8")).get("case", {})
@@ -657,15 +702,31 @@ def load_corpus():
                 sub.append(c)
             elif c.get("level") == "doc":
                 docs.append(dict(spec=c["spec"], exp=c["exp"]))
+            elif c.get("level") == "sweep":
+                CORPUS_SWEEP.append(c)
     return unit, sub, docs
 
 
 def run(res: common.Result, build) -> int:
     cu, cs, cd = load_corpus()
-    res.count("corpus_cases", len(cu) + len(cs) + len(cd))
+    res.count("corpus_cases", len(cu) + len(cs) + len(cd) + len(CORPUS_SWEEP))
+    import time
+    t0 = time.time()
+    phases = res.extra.setdefault("phase_wall_s", {})
     run_unit_escape(res, sub_rng(res.seed, "c10unit"), res.tier, cu)
+    phases["unit_escape"] = round(time.time() - t0, 1)
     run_unit_subline(res, sub_rng(res.seed, "c10sub"), res.tier, cs)
     run_docs(res, sub_rng(res.seed, "c10docs"), res.tier, cd)
+    phases["subline_and_docs"] = round(time.time() - t0 - phases["unit_escape"], 1)
+    t1 = time.time()
+    # the constructor step (user's text → the text that reaches the escaper) and the document-level character sweep
+    pts = sweep_points(sub_rng(res.seed, "c10unit"), res.tier)
+    small = sweep_points(sub_rng(res.seed, "c10unit"), "quick") if res.tier == "thorough" else None
+    suspects = c10_sweep.run_unit_input(res, res.tier, pts, small)
+    phases["constructors"] = round(time.time() - t1, 1)
+    t1 = time.time()
+    c10_sweep.run_doc_sweep(res, res.tier, CORPUS_SWEEP, suspects)
+    phases["document_sweep"] = round(time.time() - t1, 1)
     return common.finish(
         res, build, RULE, TRUSTED, ASSUME,
         explanation="C10_char_roundtrip / C10_roundtrip: decode(utf8(escape t)) = t for every text of scalar values "
@@ -674,13 +735,22 @@ def run(res: common.Result, build) -> int:
                     "fallback item; C10_seven_bit / C10_bytes_on_disk: the file bytes are 7-bit for every input; "
                     "C10_subline_heading: the subline_by heading paragraph reads back as the joined group values; "
                     "C10_intact: the oracle used on the implementation holds of the model. Other document positions are "
-                    "tied by observation of real files (they all call _convert_special_chars), not by a layout model.")
+                    "tied by observation of real files (they all call _convert_special_chars) and by Props/C10enc.lean for the "
+                    "encoder model. C10in_*: the constructors keep the user's characters — a str is the one line, "
+                    "footnote / source lines are joined by \\line and nothing else (C10in_foot_bytes), the reader shows "
+                    "the characters of all lines in order with one line break per boundary (C10in_foot_roundtrip, "
+                    "C10in_foot_intact, C10in_foot_u_escapes), also inside the encoder model "
+                    "(C10in_footnote_end_to_end, C10in_source_end_to_end).")
 
 
 def replay(payload) -> int:
     case = payload.get("case") or {}
+    if not case and payload.get("broken"):
+        case = next((b.get("case") for b in payload["broken"] if b.get("case")), {})
     bad = False
-    if case.get("level") == "unit" and case.get("kind") == "escape":
+    if case.get("level") in ("sweep", "input"):
+        bad = c10_sweep.replay_case(case)
+    elif case.get("level") == "unit" and case.get("kind") == "escape":
         t, conv = list(case["t"]), bool(case.get("conv"))
         o = _esc_worker((conv, [t]))
         if isinstance(o, tuple):
